@@ -11,7 +11,7 @@ FSNOTE = "file-system and OS behaviour (os.Root, renameio, rename(2), utimes, re
 
 PROPS = {
     "C01": {
-        "components": ["sync", "sender", "recv"],
+        "components": ["sync", "sender", "recv", "serve"],
         "trusted_base": [KERNEL, EXTRACT, HARNESSTB, GEN, MD4NOTE, FSNOTE,
                          "modelled, not verified: source-argument -> destination-path mapping across arrangements, file-list walk (covered by the end-to-end oracle only)"],
         "assumptions": [
